@@ -327,6 +327,92 @@ SERIAL = [
      [('O', True), ('E', 'f'), ('D', 'f'), ('E', 'f'), ('D', 'f'), ('H',)]),
 ]
 
+class SerialScenario(Scenario):
+    """the same lock-step builder for the real RTU client task on a pty: the environment is whether the port path exists
+    (link / unlink), whether the master side answers (serve on / off) and hang-ups"""
+
+    def __init__(self):
+        Scenario.__init__(self, 0)
+        self.sim = cl.Sim(self.cfg, serial=True)
+        self.serving = True
+
+    def connect_outcome(self):
+        return []                                  # the open result is applied by the model at once
+
+    def op(self, name, arg=None):
+        s = self.sim
+        if s.ph == 'Done':
+            return
+        if name in ('link', 'unlink'):
+            # a new pty replaces (and hangs up) the old one: only create one while the task holds no port; removing the
+            # path of an open port does not disturb it
+            if name == 'link' and (s.open_ok or s.connected()):
+                return
+            if name == 'unlink' and not s.open_ok:
+                return
+            self.ops.append(name)
+            self.h.append(name)
+            self.m.append(('O', name == 'link'))
+            s.apply(('O', name == 'link'))
+        elif name == 'serve':
+            self.ops.append(f'serve:{arg}')
+            self.serving = arg == 'on'
+            self.h.append(f'serve:{arg}')
+        elif name == 'hup':
+            if s.ph != 'Idle':
+                return
+            self.ops.append('hup')
+            s.apply(('O', False))
+            self.m.append(('O', False))
+            self._do(['unlink', 'hup'], [('Z',)])
+        elif name == 'submit':
+            self.ops.append('submit')
+            i = self.nid
+            self.nid += 1
+            tmo = TMO_SERVED if (s.ph == 'Idle' and self.serving) else TMO
+            ev = [('S', i, 'r', tmo * MS, 'f')]
+            if s.ph == 'Idle':
+                ev.append(('F', 0, 'g') if self.serving else ('T', tmo * MS))
+            elif s.ph == 'Waiting':
+                ev += self.retry_events()
+            self._do([f'S:{i}:{tmo}'], ev)
+        else:
+            Scenario.op(self, name, arg)
+
+    def finish(self):
+        self.h.append('sleep:40')
+        return (f'rmin={RMS} rmax={2 * RMS} | ' + ' '.join(self.h), self.m)
+
+
+def gen_serial(r, n):
+    out = []
+    while len(out) < n:
+        sc = SerialScenario()
+        if r.random() < 0.6:
+            sc.op('link')
+        for _ in range(r.choice([3, 5, 8])):
+            k = r.random()
+            if k < 0.15:
+                sc.op(r.choice(['link', 'unlink']))
+            elif k < 0.25:
+                sc.op('serve', r.choice(['on', 'off']))
+            elif k < 0.45:
+                sc.op('enable')
+            elif k < 0.55:
+                sc.op('disable')
+            elif k < 0.7:
+                sc.op('retry')
+            elif k < 0.88:
+                sc.op('submit')
+            elif k < 0.95:
+                sc.op('hup')
+            else:
+                sc.op(r.choice(['shutdown', 'drop']))
+        sc.op(r.choice(['shutdown', 'drop']))
+        out.append(sc)
+    return out
+
+
 PCO = {'sD': 'SDisabled', 'sO': 'SOpen', 'sS': 'SShutdown'}
 
 
@@ -336,7 +422,15 @@ def sevent_coq(st):
     return 'SEnv (' + cl.step_coq(st) + ')'
 
 
-def serial(ctx):
+def serial(ctx, nrandom=0):
+    items = list(SERIAL)
+    for sc in gen_serial(ctx.rng, nrandom):
+        line, mscript = sc.finish()
+        items.append((line.split('| ', 1)[1], None, mscript))       # no hand-written expectation: the serial model is the reference
+    return serial_items(ctx, items)
+
+
+def serial_items(ctx, SERIAL):
     lines = [f'rmin={RMS} rmax={2 * RMS} | {x[0]}' for x in SERIAL]
     if cl.MODEL_OK:
         mod = ctx.coq_eval(cl.REQUIRES + ['Model.SerialTask', 'Model.SerialEager'], 'eval_scase',
@@ -344,7 +438,7 @@ def serial(ctx):
                            case_type='scase')
     else:
         mod = [None] * len(SERIAL)
-    impl = ctx.harness('serialcycle', lines, shards=3, timeout=300)
+    impl = ctx.harness('serialcycle', lines, shards=6, timeout=600)
     traces = [i.split('|')[0].split() for i in impl]
     res = ctx.coq_eval(['Base.Show', 'Spec.Lifecycle'], 'fun l : list pstate => show_bool (plegal l)',
                        ['[' + '; '.join(PCO.get(x, 'SWait ' + x[2:]) for x in t) + ']' for t in traces], case_type='list pstate')
@@ -353,8 +447,10 @@ def serial(ctx):
         why = []
         if legal != '1':
             why.append('C13.serial.illegal-port-state-path')
-        if i != want:
+        if want is not None and i != want:
             why.append('C13.serial.outcome-differs-from-the-expected-one')
+        if i.split('|')[-1]:
+            why.append('C13.serial.' + i.split('|')[-1].replace(' ', '-'))
         if m is not None:
             mt, mc, md = m.split('|')
             it, ic, idone = i.split('|')[:3]
@@ -373,9 +469,7 @@ def run(ctx):
     if not cl.prepare(ctx, ['Spec.Lifecycle', 'Model.SerialTask', 'Model.SerialEager']):
         return
     if ctx.replay and 'serial' in ctx.replay:
-        global SERIAL
-        SERIAL = [(x[0], x[1], [tuple(e) for e in x[2]]) for x in ctx.replay['serial']]
-        serial(ctx)
+        serial_items(ctx, [(x[0], x[1], [tuple(e) for e in x[2]]) for x in ctx.replay['serial']])
         return
     if ctx.replay and 'loopback' in ctx.replay:
         judge_loopback(ctx, [(o, l, cl.case_from_json(j)) for o, l, j in ctx.replay['loopback']])
@@ -409,7 +503,7 @@ def run(ctx):
     n_serial = 0
     if not ctx.replay:
         n_loop, ltraces = loopback(ctx, 60 if ctx.quick() else 150)
-        n_serial = serial(ctx)
+        n_serial = serial(ctx, 40 if ctx.quick() else 150)
     classes = {}
     for c, i in zip(cases, impl):
         for k in cl.classify(c, i):
